@@ -100,6 +100,7 @@ def main(replay=None):
                   eit_law="radius 0 (unit current on one triangle): s^-1 k^-1; radius>0 (unit current density): s^+1 k^-1",
                   singular_pairs_compared_at_operator_level=stats.get("singular", 0), threshold_witnesses=wres,
                   kernel_mismatches=kb1 + kb2, traces_validated_against_impl=len(recs) + nk)
+    ck.cov["selfcheck_verdict_flips_not_raised"] = len(hc.SELFCHECK_FLIPS)   # see headcases.compare_decisions
     ck.cov["trusted_base"] += ["C++ harness harness/h_c02.cpp (whole pipeline in memory + direct kernel calls on the rebuilt working tree)",
                                "Python generators lib/models.py, lib/headcases.py; scaling by decimal factors perturbs the inputs by one rounding each (the rescaled model is the nearest double model)"]
     ck.assumptions += ["rounding and conditioning are measured, not proved (tolerance 1e-9 relative Frobenius; measured level in coverage.measured_rounding_level)",
